@@ -59,6 +59,7 @@ class DDSErrorCode(IntEnum):
     OVERLAPPING_PATH = 16
     UNKNOWN_OPTION = 17
     SEQUENCE_TOO_LONG = 18
+    LOAD_BEFORE_STORE = 19
 
 
 class DDSException(BaseException):
